@@ -507,8 +507,11 @@ func c12printers(c *an.Ctx) {
 }
 
 // c12nocopy: RPC decoders must not keep a no-copy view of the frame buffer.
-func c12nocopy(c *an.Ctx) {
-	r := c.Rule("C12.R3", "K-OWNERSHIP", "RPC/result decoders keep no view into the decode buffer: a BytesNoCopy() result is only handed to a nested Unmarshal or copied")
+func c12nocopy(c *an.Ctx) { noCopyViews(c, "C12.R3") }
+
+// noCopyViews is shared by C12.R3 (shipped plans/results) and C07.R10 (wire decoding of records).
+func noCopyViews(c *an.Ctx, id string) {
+	r := c.Rule(id, "K-OWNERSHIP", "RPC/result decoders keep no view into the decode buffer: a BytesNoCopy() result is only handed to a nested Unmarshal or copied")
 	target := obj(r, "lib/codec:BinaryDecoder.BytesNoCopy")
 	if target == nil {
 		return
